@@ -109,8 +109,6 @@ func checkC02(c *Ctx) {
 	flowC02(c)
 }
 
-
-
 func c02One(c *Ctx, uplink bool, ver int64, v avariant) {
 	r := c.Run
 	in := absint.NewInterp(c.Prog)
